@@ -22,6 +22,16 @@ CLAIMED["C16"] = dict(
          "Table / TableProxy / EntryProxy are covered by the bounded stand-in only until their contracts are discharged (listed in the evidence).",
 )
 
+CLAIMED["C17"] = dict(
+    text="Unbounded proof of the range-minimum structure (_ilog2, RangeMinQuery.__init__ with nested loop invariants over the sparse table, "
+         "RangeMinQuery.__call__) against the recursive spec rmin, with the split / overlap lemmas by induction; unbounded proof of is_ancestor_of, "
+         "is_strict_ancestor_of, is_comparable and distance against the tree vocabulary (anc, dep, lca2). The Euler-tour core "
+         "(LowestCommonAncestor.__init__, __call__, level) is an ASSUMED contract in that vocabulary, validated only by the bounded stand-in "
+         "(all rooted ordered trees <= 6/7 nodes, all node tuples) - stated in the evidence under not_decided and trusted_base.",
+    note="Trusted: pyvc encoding; z3/cvc5; elements totally ordered by '<'; first-order tree axioms (validated on concrete trees); "
+         "assumed contracts of LowestCommonAncestor.__call__ and .level; ghost field g_data (the array the table was built from).",
+)
+
 NOT_APPLICABLE = {
     "C14": "float layout geometry and a two-run (orientation) relation over 360 lines of dict-state code: no contract within reach decides it (DESIGN.md section 5)",
     "C09": "metamorphic / cross-process relations between runs; a functional contract speaks about one call (DESIGN.md section 5)",
